@@ -308,6 +308,48 @@ pub fn gen_c12(run: &mut Run, seed: u64, thorough: bool) {
                 t.run.op(&format!("tk.balance {}", c.tok()), "q");
             }
         }
+        // replacing a live allowance, deterministic: a→b 100 until ledger 80 (and a→c 50, never touched); at ledger 60 the owner
+        // of the funds withdraws / shortens / repeats it in every customary way; then the ledger walks past both expirations
+        let styles: [(i128, u32, &str); 10] = [
+            (0, 0, "withdraw-exp0"),
+            (0, 59, "withdraw-exp-just-past"),
+            (0, 60, "withdraw-exp-now"),
+            (0, 65, "withdraw-exp-future"),
+            (100, 65, "same-amount-earlier-exp"),
+            (100, 59, "same-amount-past-exp"),
+            (100, 90, "same-amount-later-exp"),
+            (100, 80, "same-amount-same-exp"),
+            (40, 65, "smaller-amount-earlier-exp"),
+            (101, 65, "larger-amount-earlier-exp"),
+        ];
+        for (k, (amt, exp, label)) in styles.iter().enumerate() {
+            t.run.scenario("tk", &format!("c12-replace-{k}-{label}"));
+            t.set_seq(50);
+            t.run.op(&format!("tk.new {} {} - {} {} {} 7 {maxlive0}", t.tk.tok(), t.owner.tok(), hex::encode([7u8; 32]), hx(b"T"), hx(b"T")), "construct");
+            let (a, b, c) = (Addr::c(10), Addr::c(11), Addr::c(12));
+            t.run.op(&format!("tk.mint {} 1000 {}", a.tok(), t.owner.tok()), "seed-mint");
+            t.run.op(&format!("tk.approve {} {} 100 80 {}", a.tok(), b.tok(), a.tok()), "approve-first");
+            t.run.op(&format!("tk.approve {} {} 50 80 {}", a.tok(), c.tok(), a.tok()), "approve-other-spender");
+            if k % 2 == 1 {
+                // a partial spend in between
+                t.run.op(&format!("tk.transfer_from {} {} {} 10 {}", b.tok(), a.tok(), c.tok(), b.tok()), "spend-before-replace");
+                t.run.op(&format!("tk.approve {} {} 100 80 {}", a.tok(), b.tok(), a.tok()), "approve-first-again");
+            }
+            t.set_seq(60);
+            t.run.op(&format!("tk.approve {} {} {} {} {}", a.tok(), b.tok(), amt, exp, a.tok()), &format!("replace-{label}"));
+            for s in [60u32, 64, 65, 66, 80, 81, 91] {
+                t.set_seq(s);
+                t.run.op(&format!("tk.allowance {} {}", a.tok(), b.tok()), "q-after-replace");
+                t.run.op(&format!("tk.allowance {} {}", a.tok(), c.tok()), "q-other-spender");
+                if s % 2 == 0 {
+                    t.run.op(&format!("tk.transfer_from {} {} {} 1 {}", b.tok(), a.tok(), c.tok(), b.tok()), &format!("transfer_from-after-{label}"));
+                } else {
+                    t.run.op(&format!("tk.burn_from {} {} 1 {}", b.tok(), a.tok(), b.tok()), &format!("burn_from-after-{label}"));
+                }
+                t.run.op(&format!("tk.balance {}", a.tok()), "q");
+                t.run.op(&format!("tk.balance {}", c.tok()), "q");
+            }
+        }
         // constructor metadata validation
         for (i, (name, symb, dec)) in [(b"T".to_vec(), b"T".to_vec(), 255u32), (b"T".to_vec(), b"T".to_vec(), 256), (vec![], b"T".to_vec(), 7), (b"T".to_vec(), vec![], 7), (b"T".to_vec(), b"T".to_vec(), 0)].iter().enumerate() {
             t.run.scenario("tk", &format!("c12-ctor-{i}"));
